@@ -484,6 +484,40 @@ def run_case_nd(ctx, case, grid):
     good = I.shape == (2,) and abs(I[0] - vol) <= TOL * amp * vol and (not lin_ok or abs(I[1] - ex) <= TOL * amp * sc)
     clause = "B.trap.integrate" if c["family"] == "trapezoidal" else "B.ho.const_linear"
     ctx.check(clause, good, site, tag + "-2d", "integrate %s, exact [%r, %r]" % (I, vol, ex))
+    # history with a refused request: the object holds the case's grid, is then asked for another grid with an UNSORTED first stripe (refused by set_grid's own
+    # check), and finally for that other grid with the stripe corrected: its weights are those of a fresh object (missed seed C09_9: per-dimension memo half-updated
+    # by the refused call)
+    pts, lvs = case["points"], case["levels"]
+    if all(len(p) >= 3 for p in pts):
+        mlv = [list(reversed(l)) for l in lvs]
+        mir = [points_from_levels(mlv[i], a[i], b[i]) for i in range(d)]
+        out = {}
+
+        def refused_then_retry():
+            try:    # a configuration that cannot even set up the other grid on a fresh object is judged by its own cases, not here
+                fresh0 = make_grid(c, list(a), list(b))
+                fresh0.set_grid([list(m) for m in mir], [list(l) for l in mlv])
+            except Exception:  # noqa
+                return
+            g = make_grid(c, list(a), list(b))
+            g.set_grid([list(p) for p in pts], [list(l) for l in lvs])
+            bad0 = list(mir[0])
+            bad0[0], bad0[1] = bad0[1], bad0[0]
+            try:
+                g.set_grid([bad0] + [list(m) for m in mir[1:]], [list(l) for l in mlv])
+                out["refused"] = False
+            except AssertionError:
+                out["refused"] = True
+            g.set_grid([list(m) for m in mir], [list(l) for l in mlv])
+            fresh = make_grid(c, list(a), list(b))
+            fresh.set_grid([list(m) for m in mir], [list(l) for l in mlv])
+            out["w"] = [np.asarray(g.weights[i], dtype=float) for i in range(d)]
+            out["wf"] = [np.asarray(fresh.weights[i], dtype=float) for i in range(d)]
+        ok2, _ = attempt(ctx, "B.total", site, tag + "-2d-refused-then-retry", refused_then_retry)
+        if ok2 and out.get("refused"):
+            same = all(x.shape == y.shape and np.array_equal(x, y) for x, y in zip(out["w"], out["wf"]))
+            ctx.check("B.history.reuse", same, site, tag + "-2d-corrected-request-after-a-refused-one",
+                      "weights after (grid, refused request with an unsorted stripe, corrected request) %s differ from a fresh object's %s" % ([w.tolist() for w in out["w"]], [w.tolist() for w in out["wf"]]))
 
 
 # ------------------------------------------------------------------------------------------- enumeration
